@@ -104,6 +104,11 @@ def gen_case(rng, pid, tier):
     malformed = rng.random() < 0.15
     now = rng.choice(NOWS)
     exp = rng.choice(EXPIRIES)
+    # (side stream) expiries of a day and more - `--trace-expire-after 90000` - on a wall-clock `now`
+    drng = random.Random(repr(rng.getstate()[1][:4]))
+    if drng.random() < 0.12:
+        now = drng.choice(['1536173624', '1536173624.75'])
+        exp = drng.choice([86400, 90000, 172800, 259200])
     thr = _ms(now) - exp * 1000
     nshards = rng.randint(1, 4)
     ninst = rng.randint(1, 8)
